@@ -40,3 +40,13 @@ claim("C17", "exploration", "exhaustive small lists x all single edits + Hypothe
 claim("C18", "exploration", "exhaustive over the pinned checkpoint table + Hypothesis wrong ids; unpatched deep-state scenario; recorded real blocks with real scrypt vs independent reference",
       "All 327 checkpointed heights: the checkpoint id passes, generated wrong ids (random, one bit off, same prefix/suffix, another height's checkpoint) are refused, free heights are not refused; with nothing patched, candidates at 162,999 / 163,000 / 163,001 on fabricated bases behave as skip / refuse / fully validate; genesis and the five recorded real blocks keep their ids, re-encode byte-identically, pass add_block with the real scrypt, and their evidence equals an independent reference (scrypt N=2^15,r=8,p=1; blake2b-256; sha256d).",
       "Trusted: pinned copies of the table and blocks (vf/data), the scrypt package, fabricated deep bases.", "DESIGN.md 4/C18")
+
+claim("C14", "exploration", "Hypothesis rule-based state machine (spend / confirm / block) vs reference spendable-set model and validators",
+      "Stateful model-based test of create_spend_transaction on generated ledgers and wallets: success iff the model's spendable total covers amount+fee; successful spends are exact (recipient output, change, no zero change), valid under the node's and the reference validation, use only spendable outputs not used before; failures leave the wallet's used-output record unchanged so a later affordable spend succeeds. Found and led to the repair of C14-F1.",
+      "Trusted: reference ledger; spends extend the head only.", "DESIGN.md 4/C14")
+claim("C15", "fault_enumeration", "Hypothesis rule-based state machine vs key-book model; fork-and-kill crash injection at EVERY write/rename boundary of every save",
+      "Stateful model-based test of key hand-out / restore / dump / load / save / reload (Wallet.load and open_or_init_wallet) with unicode annotations; every save_wallet in a sequence is additionally executed in forked children killed at every chunk boundary, before/after file creation and around the rename: wallet.json must always load as the complete previous or new wallet. Balance equals the reference total over all wallet keys.",
+      "Trusted: process-crash model (no power loss); chunk boundaries are a superset of real buffered-write prefixes.", "DESIGN.md 4/C15")
+claim("C08", "exploration", "Hypothesis-generated histories x flush batchings x reloads; oracle written == read (bytes) and rebuilt ledger == reference; faulty second reference classifies the known finding",
+      "Validated histories with forks and spends are written through the real BlockStore (and DiskInterface/DefaultBlockStore) under drawn batchings; after every flush the store is reopened and must return exactly the written blocks byte for byte, parents first, and a rebuild as read_chain_from_disk does must give reference-equal unspent maps and the live head height. Known finding C08-F1 (a transaction id shared by two blocks) is recognised only when the read-back equals a deliberately faulty 'first writer keeps the id' model; any other difference is a violation; half of the histories exclude shared ids by construction.",
+      "Trusted: reference ledger, SQLite on a temp file.", "DESIGN.md 4/C08, 5")
